@@ -23,14 +23,29 @@ list and executes the real code:
     and before compute.  What happens to that object after construction is irrelevant to every cell
     (the copies are private), and, differentially, SplitIntoBins is irrelevant to the object: in
     the end it computes what a twin computes that got the same values and never met a SplitIntoBins.
+  * law "computes" (judged by the same oracle): compute() is a step of a history, not its end - it is
+    also called (and consumed) at every non-empty subset of the points before each fill and after the
+    last fill; every cell's private copy is computed at the same points, and EVERY compute must yield
+    the histograms of what the private copies compute then, with context.variable describing the
+    argument variable (state that survives a compute - flags, caches, kept generators - shows here).
   * law "iterate": IterateBins over such a histogram yields every cell exactly once, its data the cell's
     data, its context the cell's context plus context.bin.edges = that cell's edges and context.bins =
     the histogram's context.
+  * law "edges-str": the same enumeration with create_edges_str = cell_to_string under every combination
+    of its documented keyword options (coord_names, coord_fmt, coord_join, reverse; given as a
+    functools.partial) and with the element's default: context.bin.edges_str of every cell is, by the
+    docstring of cell_to_string, each coordinate's (lower bound, name, upper bound) formatted with
+    coord_fmt, joined with coord_join, the coordinates in reverse order if reverse - for that cell's own
+    edges.  Names: the explicit ones, else the documented ones (the name of a one-dimensional variable,
+    the names of a Combine), else (nothing documented) the ones cell_to_string uses without options.
+    A custom create_edges_str must be given (the cell's edges, the histogram's variable) and its answer
+    must be the cell's edges_str.
   * law "map": MapBins(seq) over such a histogram yields histograms of identical edges and shape whose
     every cell equals a fresh copy of seq applied to the corresponding cell (j-th result in the j-th
     histogram, data only unless drop_bins_context=False).
 """
 import copy
+import functools
 import itertools
 
 import lena.core
@@ -54,7 +69,11 @@ RULE = ("every (edges, analysis, argument variable, context mode, flow of pool a
         "different contents; a template-history case (the analysis object handed over already holds a "
         "value and / or its owner fills values into it after construction, every subset of the points "
         "before each fill and before compute) is non-trivial when at least one value is routed into a "
-        "cell; cases are distinct by construction of the enumeration")
+        "cell; a compute-history case (compute() also called at a non-empty subset of the points before "
+        "each fill and after the last fill, every compute judged against private copies computed at the "
+        "same points) is non-trivial when at least one value is routed into a cell; an edges-string case "
+        "(one option combination of cell_to_string on one histogram) is non-trivial when the histogram "
+        "has at least two cells; cases are distinct by construction of the enumeration")
 ASSUMPTIONS = [
     "edges are lists of numbers (1-d) or lists of such lists (2-d); arguments are small ints / dyadic "
     "floats (no NaN, no infinities); 2-d arguments are returned by the variable as a tuple or a list",
@@ -70,10 +89,18 @@ ASSUMPTIONS = [
     "edited after construction, are not explored",
     "the rest of the histogram context (beyond context.variable) is accepted when it is empty, equals "
     "the (pristine or analysis-mutated) context of any in-range value, or their intersection",
-    "compute() is called once per SplitIntoBins object; repeated compute / reset histories belong to C09",
+    "compute histories: every compute() is consumed to its end before the history goes on; computing an "
+    "analysis of the alphabet does not change what it computes later (the cells' private copies are "
+    "computed at the same points anyway); of the context.variable of a compute() that is not the first "
+    "one the list 'compose' is never judged (describing a typed variable once more may name its type "
+    "again); SplitIntoBins has no reset",
     "MapBins is not judged on histograms whose cell data are lists (nested lists are dimensions for "
     "md_map by documented design); context of MapBins' output is not judged (not in the statement)",
-    "IterateBins' edges_str is not judged, only that producing it does not make the enumeration fail",
+    "IterateBins' edges_str is judged for create_edges_str = cell_to_string (default and every "
+    "combination of one alternative value per documented option) and for a recording callable; where no "
+    "docstring fixes the coordinate names (no context.variable, a multidimensional variable that is not "
+    "a Combine) the names are those the real cell_to_string gives without other options (differential), "
+    "so only their pairing with the edges, the format, the separator and the order are judged there",
 ]
 NONTRIVIAL_FLOOR = {"quick": 20000, "thorough": 200000}
 BUDGET_S = {"quick": 240, "thorough": 3000}
@@ -133,6 +160,37 @@ TEMPLATE_PRE = (0, 1)
 TWIN_MAX_LEN = 2
 
 
+def _compute_plans(tier):
+    """(edges, vars, modes, flow lengths) of the law "computes": for every flow of n values every
+    history in which compute() is also called (and consumed) at a non-empty subset of the points "before
+    the k-th fill" (k = 0..n-1) and "after the last fill" (k = n, i.e. compute() twice in a row) - the
+    history with the final compute() alone is the law "sib"."""
+    all1, all2 = list(M.VARS[1]), list(M.VARS[2])
+    if tier == "thorough":
+        return [
+            (E1, all1, list(M.CTX_MODES), [0, 1, 2, 3]),
+            (E1, all1, list(M.VAR_MODES), [0, 1, 2]),
+            (E2, all1, ["bare", "ctx", "varctx"], [0, 1, 2]),
+            (E3, all2, ["bare", "ctx", "varctx"], [0, 1, 2]),
+            (E4, all2, ["bare", "ctx"], [0, 1, 2]),
+        ]
+    return [
+        (E1, all1, ["bare", "ctx", "varctx"], [0, 1, 2]),
+        (E2, all1, ["ctx", "varsame"], [0, 1]),
+        (E3, all2, ["bare", "ctx"], [0, 1]),
+        (E4, all2, ["ctx", "varctx"], [0, 1]),
+    ]
+
+
+def _compute_histories(n):
+    """Every non-empty subset of the points 0..n, simplest first."""
+    out = []
+    for r in range(1, n + 2):
+        for pts in itertools.combinations(range(n + 1), r):
+            out.append(list(pts))
+    return out
+
+
 def _histories(n):
     """Every (pre, touch points) with somebody using the template object, simplest first."""
     out = []
@@ -162,6 +220,15 @@ def describe(tier):
                      "value filled into it at every subset of the points before each fill and before "
                      "compute)" % (edges, len(M.ANALYSES), "/".join(vs), "/".join(ms),
                                    ",".join(map(str, ls))))
+    for edges, vs, ms, ls in _compute_plans(tier):
+        parts.append("compute histories on edges %s: %d analyses x vars %s x contexts %s x all flows of "
+                     "length %s x (compute() also called at every non-empty subset of the points before "
+                     "each fill and after the last fill), every compute judged"
+                     % (edges, len(M.ANALYSES), "/".join(vs), "/".join(ms), ",".join(map(str, ls))))
+    parts.append("edges strings: %d option combinations of cell_to_string (and the element's default) on "
+                 "every histogram that gets the follow-up laws for flows up to length %d and on the hand-made "
+                 "histograms"
+                 % (len(EDGES_STR_OPTS) - 1, EDGES_STR_FOLLOW[tier]))
     parts.append("plus hand-made histograms: 7 shapes x 7 cell kinds x 4 histogram contexts")
     return "; ".join(parts)
 
@@ -188,8 +255,20 @@ def shards(tier):
                 out.append({"kind": "template", "an": an, "parts": [part]})
         else:
             out.append({"kind": "template", "an": an, "parts": tplans})
+    cplans = [{"edges": e, "vars": vs, "modes": ms, "lens": ls} for e, vs, ms, ls in _compute_plans(tier)]
+    for an in M.ANALYSES:
+        if tier == "thorough":
+            for part in cplans:
+                for v in part["vars"]:
+                    out.append({"kind": "computes", "an": an, "parts": [dict(part, vars=[v])]})
+        else:
+            out.append({"kind": "computes", "an": an, "parts": cplans})
     for s in range(len(HAND_SHAPES)):
         out.append({"kind": "hand", "shape": s})
+    # cheapest shards first (hand-made histograms, compute histories, template histories: seconds each),
+    # so that a run that is cut by its time budget has completed every law at its smallest bound
+    rank = {"hand": 0, "computes": 1, "template": 2, "sib": 3}
+    out.sort(key=lambda p: rank[p["kind"]])
     return out
 
 
@@ -216,6 +295,8 @@ def _execute_sib(case):
         except Exception:  # noqa
             pass
     pre, touch = _history(case)
+    points = _compute_points(case)
+    earlier = []
     # the analysis object handed to SplitIntoBins, and what its owner does with it before and afterwards
     template = M.build_template(case["an"], edges, case["var"], case["mode"], pre)
     events = []
@@ -223,9 +304,13 @@ def _execute_sib(case):
         sib = lena.structures.SplitIntoBins(template, var, edges)
         values = M.build_flow(case["flow"], case["var"], case["mode"])
         for k, v in enumerate(values):
+            if k in points:
+                earlier.append(_compute_now(sib))
             if k in touch:
                 _use(template, M.template_value(edges, case["var"], case["mode"], k), events, k)
             sib.fill(v)
+        if len(values) in points:
+            earlier.append(_compute_now(sib))
         if len(values) in touch:
             _use(template, M.template_value(edges, case["var"], case["mode"], len(values)), events,
                  len(values))
@@ -233,12 +318,14 @@ def _execute_sib(case):
             outs.append(o)
     except Exception as e:  # noqa: the type is the outcome
         term = type(e).__name__
+    _EARLIER[0] = earlier
     _VAR_AFTER[0] = (copy.deepcopy(var.var_context), var_snapshot)
     _TEMPLATE_AFTER[0] = (template, events)
     return outs, term, var_snapshot
 
 
 _SIBLING = [None]
+_EARLIER = [[]]          # (outputs, terminal) of every compute() before the final one, in order
 _VAR_AFTER = [None]      # (var_context of the argument variable after the run, before the run)
 _TEMPLATE_AFTER = [None]     # (the analysis object that was handed to SplitIntoBins, its fill events)
 
@@ -246,6 +333,25 @@ _TEMPLATE_AFTER = [None]     # (the analysis object that was handed to SplitInto
 def _history(case):
     tpl = case.get("template") or {}
     return tpl.get("pre", 0), list(tpl.get("touch", []))
+
+
+def _compute_points(case):
+    """The points of a history at which compute() is called in addition to the final compute():
+    k = before the k-th fill, len(flow) = after the last fill (the final compute follows at once)."""
+    return sorted(set(case.get("computes") or []))
+
+
+def _compute_now(sib):
+    """One complete compute() in the middle of a history: (snapshot of its outputs, terminal). An
+    exception of compute() is an outcome of this compute; the history goes on."""
+    outs = []
+    term = "end"
+    try:
+        for o in sib.compute():
+            outs.append(o)
+    except Exception as e:  # noqa
+        term = type(e).__name__
+    return copy.deepcopy(outs), term
 
 
 def _use(analysis, value, events, k):
@@ -326,8 +432,9 @@ def _explain(case, outs, n):
     return "unexplained"
 
 
-def _context_problem(ctx, var_snapshot, ref, case):
-    """None or (kind, detail) for the context yielded with a histogram."""
+def _context_problem(ctx, var_snapshot, ref, case, later=False):
+    """None or (kind, detail) for the context yielded with a histogram (*later*: by a compute() that is
+    not the first one of its SplitIntoBins)."""
     if ctx is None or not isinstance(ctx.get("variable"), dict):
         return ("no-context-variable", repr(ctx))
     cvar = ctx["variable"]
@@ -341,11 +448,14 @@ def _context_problem(ctx, var_snapshot, ref, case):
     # own (which the variable composes with), it is exactly the variable's own context
     routed = [p for idx in ref for p in ref[idx][2]]
     if not any("variable" in (M.split_value(pristine[p])[1] or {}) for p in routed):
-        if freeze(cvar) != freeze(var_snapshot):
-            return ("variable-foreign-attributes",
-                    sorted(k for k in set(cvar) | set(var_snapshot)
-                           if k not in cvar or k not in var_snapshot
-                           or freeze(cvar[k]) != freeze(var_snapshot[k])))
+        # (a later compute() without values in between describes the variable once more: whether the
+        # list "compose" then names its type again is left open here, as everything about "compose")
+        skip = ("compose",) if later else ()
+        foreign = sorted(k for k in set(cvar) | set(var_snapshot)
+                         if k not in skip and (k not in cvar or k not in var_snapshot
+                                               or freeze(cvar[k]) != freeze(var_snapshot[k])))
+        if foreign:
+            return ("variable-foreign-attributes", foreign)
     rest = dict((k, v) for k, v in ctx.items() if k != "variable")
     if not rest:
         return None
@@ -374,13 +484,19 @@ def check_sib(res, case, ref=None):
     d = M.dim_of(edges)
     cells = M.all_cells(edges)
     pre, touch = _history(case)
-    if ref is None:
+    points = _compute_points(case)
+    refs = []
+    if points:
+        # law "computes": every cell's private copy is computed at the same points of the history
+        refs = M.reference_history(edges, case["an"], case["var"], case["mode"], case["flow"], points,
+                                   pre=pre)
+        ref = refs.pop()
+    elif ref is None:
         ref = M.reference_cells(edges, case["an"], case["var"], case["mode"], case["flow"], pre=pre)
     outs, term, var_snapshot = _execute_sib(case)
+    earlier = _EARLIER[0]
 
-    n_exp = min(len(ref[idx][0]) for idx in cells)
     n_max = max(len(ref[idx][0]) for idx in cells)
-    allowed_terms = set(ref[idx][1] for idx in cells if len(ref[idx][0]) == n_exp)
     filled = [idx for idx in cells if ref[idx][2]]
     n_in = sum(len(ref[idx][2]) for idx in cells)
     nontrivial = len(filled) >= 2 or (n_in >= 1 and n_in < len(case["flow"]))
@@ -390,6 +506,12 @@ def check_sib(res, case, ref=None):
         nontrivial = n_in >= 1
         base["template"] = "used-by-its-owner"
         res.count("template_cases")
+    if points:
+        # law "computes": a value is routed into a cell of an element that is computed more than once
+        nontrivial = n_in >= 1
+        base["history"] = "several-computes"
+        res.count("compute_history_cases")
+    plain = not (pre or touch or points)
 
     def viol(law, kind, observed, expected, **more):
         cause = {"law": law, "kind": kind}
@@ -397,63 +519,83 @@ def check_sib(res, case, ref=None):
         cause.update(more)
         res.violation(case, observed, expected, cause)
 
-    summary = []
-    n_cmp = min(len(outs), n_exp)
-    bad = False
-    for j in range(n_cmp):
-        hist, ctx = M.split_value(outs[j])
-        if not isinstance(hist, lena.structures.histogram):
-            viol("sib-histogram", "not-a-histogram", repr(type(hist)), "lena.structures.histogram")
-            bad = True
-            break
-        if freeze(hist.edges) != freeze(edges):
-            viol("sib-histogram", "edges-differ", repr(hist.edges), repr(edges))
-            bad = True
-            break
-        if not M.shape_ok(hist.bins, edges):
-            viol("sib-histogram", "bins-shape", repr(hist.bins)[:300], "nested lists of the shape of edges")
-            bad = True
-            break
-        for idx in cells:
-            got = M.get_cell(hist.bins, idx)
-            exp = ref[idx][0][j]
-            res.count("cells_compared")
-            if freeze(got) != freeze(exp):
-                viol("sib-cells", "cell-differs-from-private-copy",
-                     {"histogram": j, "cell": list(idx), "content": repr(got)[:400]},
-                     {"content": repr(exp)[:400], "values_of_cell": ref[idx][2]},
-                     explained_by="not-examined" if (pre or touch) else _explain(case, outs, n_cmp),
-                     border_value_in_flow=False if (pre or touch) else _has_border(case))
-                bad = True
-                break
-        if bad:
-            break
-        problem = _context_problem(ctx, var_snapshot, ref, case)
-        if problem is not None:
-            viol("sib-context", problem[0], {"context": repr(ctx)[:400], "detail": problem[1]},
-                 {"variable": var_snapshot}, ctx_mode=case["mode"],
-                 typed_variable="type" in var_snapshot)
-            bad = True
-            break
-        summary.append((freeze(hist.bins), freeze(ctx)))
-    if not bad:
+    def judge(outs, term, ref, number):
+        """One compute() of the history (*number* computes went before it) against the cells' private
+        copies computed at the same point. Returns (summary of what was yielded, something was wrong)."""
+        n_exp = min(len(ref[idx][0]) for idx in cells)
+        n_max = max(len(ref[idx][0]) for idx in cells)
+        allowed_terms = set(ref[idx][1] for idx in cells if len(ref[idx][0]) == n_exp)
+        more = {"compute": "first" if number == 0 else "later"} if points else {}
+        summary = []
+        n_cmp = min(len(outs), n_exp)
+        res.count("histograms_compared", n_cmp)
+        for j in range(n_cmp):
+            hist, ctx = M.split_value(outs[j])
+            if not isinstance(hist, lena.structures.histogram):
+                viol("sib-histogram", "not-a-histogram", repr(type(hist)), "lena.structures.histogram",
+                     **more)
+                return summary, True
+            if freeze(hist.edges) != freeze(edges):
+                viol("sib-histogram", "edges-differ", repr(hist.edges), repr(edges), **more)
+                return summary, True
+            if not M.shape_ok(hist.bins, edges):
+                viol("sib-histogram", "bins-shape", repr(hist.bins)[:300],
+                     "nested lists of the shape of edges", **more)
+                return summary, True
+            for idx in cells:
+                got = M.get_cell(hist.bins, idx)
+                exp = ref[idx][0][j]
+                res.count("cells_compared")
+                if freeze(got) != freeze(exp):
+                    viol("sib-cells", "cell-differs-from-private-copy",
+                         {"histogram": j, "cell": list(idx), "content": repr(got)[:400],
+                          "computes_before": number},
+                         {"content": repr(exp)[:400], "values_of_cell": ref[idx][2]},
+                         explained_by=_explain(case, outs, n_cmp) if plain else "not-examined",
+                         border_value_in_flow=_has_border(case) if plain else False, **more)
+                    return summary, True
+            problem = _context_problem(ctx, var_snapshot, ref, case, later=number > 0)
+            if problem is not None:
+                viol("sib-context", problem[0],
+                     {"context": repr(ctx)[:400], "detail": problem[1], "computes_before": number},
+                     {"variable": var_snapshot}, ctx_mode=case["mode"],
+                     typed_variable="type" in var_snapshot, **more)
+                return summary, True
+            summary.append((freeze(hist.bins), freeze(ctx)))
         if len(outs) < n_exp:
             if term == "end":
-                viol("sib-count", "too-few-histograms", len(outs), n_exp)
+                viol("sib-count", "too-few-histograms", len(outs), n_exp, **more)
             else:
                 viol("sib-count", "raised-before-all-histograms",
-                     {"histograms": len(outs), "raised": term}, {"histograms": n_exp})
-        elif len(outs) > n_exp:
+                     {"histograms": len(outs), "raised": term}, {"histograms": n_exp}, **more)
+            return summary, True
+        if len(outs) > n_exp:
             # Python-2 reading of the docstring: exhausted cells are padded with None
             padded = len(outs) == n_max and term == "end" and _padded_ok(outs, ref, cells, n_exp)
             if not padded:
-                viol("sib-count", "too-many-histograms", len(outs), n_exp)
+                viol("sib-count", "too-many-histograms", len(outs), n_exp, **more)
+                return summary, True
         elif term not in allowed_terms:
             if term == "end":
                 viol("sib-count", "exception-of-a-cell-swallowed", "ended normally",
-                     sorted(allowed_terms))
+                     sorted(allowed_terms), **more)
             else:
-                viol("sib-count", "raised", term, sorted(allowed_terms), exc=term)
+                viol("sib-count", "raised", term, sorted(allowed_terms), exc=term, **more)
+            return summary, True
+        return summary, False
+
+    summaries = []
+    bad = False
+    for number, (e_outs, e_term) in enumerate(earlier):
+        summary, bad = judge(e_outs, e_term, refs[number], number)
+        summaries.append((tuple(summary), len(e_outs), e_term))
+        if bad:
+            break
+    if not bad:
+        # (a fill that raised ends the history: the computes that were not reached are not judged,
+        # the exception is the terminal of the final compute, as in a history with one compute)
+        summary, bad = judge(outs, term, ref, len(earlier))
+        summaries.append((tuple(summary), len(outs), term))
     after, before = _VAR_AFTER[0]
     if freeze(after) != freeze(before):
         # context.variable describes the argument variable; describing it must not rewrite it (the same
@@ -467,10 +609,12 @@ def check_sib(res, case, ref=None):
     if term != "end":
         res.count("sib_ended_by_exception")
     res.count("sib_cases")
-    res.count("histograms_compared", n_cmp)
     res.maximum("results_per_cell", n_max)
-    res.case(nontrivial=nontrivial, outcome=("sib", case["an"], tuple(summary), len(outs), term, pre,
-                                             tuple(touch)))
+    if points:
+        res.case(nontrivial=nontrivial, outcome=("sib", case["an"], tuple(summaries), pre, tuple(touch)))
+    else:
+        res.case(nontrivial=nontrivial, outcome=("sib", case["an"], summaries[-1][0] if summaries else (),
+                                                 len(outs), term, pre, tuple(touch)))
     return outs
 
 
@@ -574,10 +718,13 @@ def always(_):
 class _Recorder(object):
     def __init__(self):
         self.calls = []
+        self.answers = []
 
     def __call__(self, edges, var_context=None):
         self.calls.append(edges)
-        return "cell%d" % len(self.calls)
+        answer = "cell%d" % len(self.calls)
+        self.answers.append((_norm_edges(edges), copy.deepcopy(var_context), answer))
+        return answer
 
 
 def _norm_edges(e):
@@ -666,6 +813,17 @@ def check_iterate(res, desc, config, inp=None):
                 elif "bins" not in ctx or freeze(ctx["bins"]) != freeze(hctx or {}):
                     problems = ("histogram-context-not-in-context.bins",
                                 {"cell": list(idx), "bins": repr(ctx.get("bins"))[:300]})
+                elif config == "custom_str":
+                    # create_edges_str "is passed parameters (edges, var_context)": the string in the
+                    # cell's context is what it answered for this cell's edges and the histogram's variable
+                    mine = [a for a in rec.answers if a[0] == key]
+                    if not any(a[2] == ctx["bin"].get("edges_str") for a in mine):
+                        problems = ("edges_str-is-not-what-create_edges_str-returned-for-the-cell",
+                                    {"cell": list(idx), "edges_str": repr(ctx["bin"].get("edges_str")),
+                                     "answers_for_the_cell": [a[2] for a in mine]})
+                    elif any(freeze(a[1]) != freeze(var) for a in mine):
+                        problems = ("create_edges_str-not-given-the-histogram's-variable",
+                                    {"cell": list(idx), "given": repr([a[1] for a in mine])[:300]})
                 if problems:
                     break
     res.count("iterate_cases")
@@ -678,6 +836,116 @@ def check_iterate(res, desc, config, inp=None):
             cause["exc"] = problems[1]
         res.violation(case, problems[1], "one output per cell: (cell data, cell context + bin.edges + bins)",
                       cause)
+
+
+# ---------------------------------------------------------------------------------------------
+# law "edges-str": the string of a cell's edges under every documented option of cell_to_string
+# ---------------------------------------------------------------------------------------------
+
+EDGES_STR_FOLLOW = {"quick": 1, "thorough": 2}
+ALT_NAMES = ("a", "b", "c")
+ALT_FMT = "{1}[{0};{2})"
+ALT_JOIN = "|"
+DEFAULT_FMT = "{}_lte_{}_lt_{}"
+DEFAULT_JOIN = "_"
+#: the element's own default, then every combination of the documented keyword options of
+#: cell_to_string (given to IterateBins as functools.partial(cell_to_string, **options)), simplest first
+EDGES_STR_OPTS = ["element-default"] + [
+    {"names": n, "fmt": f, "join": j, "reverse": r}
+    for n in (False, True) for f in (False, True) for j in (False, True) for r in (False, True)]
+
+
+def _natural_names(cell_edges, var, d):
+    """Coordinate names where no docstring fixes them (no variable in the histogram's context, a
+    multidimensional variable that is not a Combine): whatever cell_to_string itself uses with all
+    other options at their defaults - asked with a format that shows the name only (differential)."""
+    try:
+        names = lena.structures.cell_to_string(cell_edges, var_context=copy.deepcopy(var),
+                                               coord_fmt="{1}", coord_join="\x00").split("\x00")
+    except Exception:  # noqa
+        return None
+    return names if len(names) == d else None
+
+
+def check_edges_str(res, desc, opt, inp=None):
+    """IterateBins with create_edges_str = cell_to_string under one combination of its options: every
+    cell's context.bin.edges_str is the string the docstring of cell_to_string defines for that cell's
+    own edges (each coordinate's bounds with that coordinate's name, joined, reversed as a whole)."""
+    case = {"law": "edges-str", "input": desc, "opt": opt}
+    if inp is None:
+        inp = build_input(desc)
+    if inp is None or not isinstance(M.split_value(inp)[0], lena.structures.histogram):
+        return
+    snap = copy.deepcopy(inp)
+    hist, hctx, cells, contents, _ = _input_facts(snap)
+    if any(isinstance(M.split_value(c)[1], dict) and ("bin" in c[1] or "bins" in c[1])
+           for c in contents):
+        return
+    d = len(M.axes_of(hist.edges))
+    var = (hctx or {}).get("variable")
+    if var is not None and not isinstance(var, dict):
+        return
+    kw = {}
+    if opt != "element-default":
+        if opt["names"]:
+            kw["coord_names"] = list(ALT_NAMES[:d])
+        if opt["fmt"]:
+            kw["coord_fmt"] = ALT_FMT
+        if opt["join"]:
+            kw["coord_join"] = ALT_JOIN
+        if opt["reverse"]:
+            kw["reverse"] = True
+        el = lena.structures.IterateBins(
+            create_edges_str=functools.partial(lena.structures.cell_to_string, **kw), select_bins=always)
+    else:
+        el = lena.structures.IterateBins(select_bins=always)
+    source = "explicit"
+    names = kw.get("coord_names")
+    if names is None:
+        names, source = M.documented_names(var, d), "documented"
+    cause = {"law": "iterate-bins-edges-str", "dim": d, "reverse": bool(kw.get("reverse")),
+             "variable": "none" if var is None else ("combine" if "combine" in var else "plain"),
+             "other_options": "default" if not (set(kw) - {"reverse"}) else "given"}
+    problem = None
+    strings = []
+    try:
+        outs = list(el.run(iter([inp])))
+    except Exception as e:  # noqa
+        outs = None
+        problem = ("raised", type(e).__name__)
+        cause["exc"] = problem[1]
+    if outs is not None:
+        by_edges = {}
+        for o in outs:
+            ctx = M.split_value(o)[1] or {}
+            by_edges.setdefault(_norm_edges((ctx.get("bin") or {}).get("edges")), []).append(ctx)
+        for idx in cells:
+            own = M.cell_edges(idx, hist.edges)
+            found = by_edges.get(_norm_edges(own), [])
+            if len(found) != 1:
+                break            # the enumeration itself is wrong: the law "iterate" reports that
+            cell_names, cell_source = names, source
+            if cell_names is None:
+                cell_names, cell_source = _natural_names(own, var, d), "as-without-options"
+            if cell_names is None:
+                break
+            want = M.edges_string(own, cell_names, kw.get("coord_fmt", DEFAULT_FMT),
+                                  kw.get("coord_join", DEFAULT_JOIN), bool(kw.get("reverse")))
+            got = found[0]["bin"].get("edges_str")
+            strings.append(got)
+            if got != want:
+                problem = ("edges_str-does-not-describe-the-cell's-own-edges",
+                           {"cell": list(idx), "edges": repr(own), "edges_str": repr(got),
+                            "expected": want, "names": cell_names})
+                cause["names"] = cell_source
+                break
+    res.count("edges_str_cases")
+    res.case(nontrivial=len(cells) >= 2, outcome=("edges-str", repr(opt), tuple(map(repr, strings)),
+                                                  problem and problem[0]))
+    if problem:
+        cause["kind"] = problem[0]
+        res.violation(case, problem[1], "every coordinate's (lower bound, name, upper bound) formatted "
+                      "with coord_fmt, joined with coord_join, in reverse order if reverse", cause)
 
 
 def _renamed(inp, name):
@@ -799,13 +1067,16 @@ def check_map(res, desc, seqname, drop, inp=None):
                       "seq applied to the corresponding cell" % n_exp, cause)
 
 
-def follow_ups(res, sib_case, outs):
+def follow_ups(res, sib_case, outs, edges_str=False):
     for j in range(len(outs)):
         if not isinstance(M.split_value(outs[j])[0], lena.structures.histogram):
             continue
         desc = {"from": "sib", "sib": sib_case, "j": j}
         for config in ITER_CONFIGS:
             check_iterate(res, desc, config, inp=copy.deepcopy(outs[j]))
+        if edges_str:
+            for opt in EDGES_STR_OPTS:
+                check_edges_str(res, desc, opt, inp=copy.deepcopy(outs[j]))
         for seqname in M.MAP_SEQS:
             for drop in (True, False):
                 check_map(res, desc, seqname, drop, inp=copy.deepcopy(outs[j]))
@@ -825,6 +1096,8 @@ def run_shard(p, tier):
                     check_iterate(res, desc, config)
                     if config != "custom_str":
                         check_iterate_flow(res, desc, config)
+                for opt in EDGES_STR_OPTS:
+                    check_edges_str(res, desc, opt)
                 for seqname in M.MAP_SEQS:
                     for drop in (True, False):
                         check_map(res, desc, seqname, drop)
@@ -833,6 +1106,10 @@ def run_shard(p, tier):
     if p["kind"] == "template":
         for part in p["parts"]:
             _run_template_part(res, p["an"], part)
+        return res
+    if p["kind"] == "computes":
+        for part in p["parts"]:
+            _run_compute_part(res, p["an"], part)
         return res
     edges = p["edges"]
     pool = M.arg_pool(edges)
@@ -845,7 +1122,7 @@ def run_shard(p, tier):
                             "flow": flow}
                     outs = check_sib(res, case)
                     if n <= p["follow"]:
-                        follow_ups(res, case, outs)
+                        follow_ups(res, case, outs, edges_str=n <= EDGES_STR_FOLLOW[tier])
             if n >= 2:
                 res.sample(case, 3)
     return res
@@ -874,6 +1151,23 @@ def _run_template_part(res, an, part):
                 res.sample(case, 3)
 
 
+def _run_compute_part(res, an, part):
+    edges = part["edges"]
+    pool = M.arg_pool(edges)
+    for n in part["lens"]:
+        histories = _compute_histories(n)
+        for flow in itertools.product(pool, repeat=n):
+            flow = list(flow)
+            for var in part["vars"]:
+                for mode in part["modes"]:
+                    for points in histories:
+                        case = {"law": "sib", "edges": edges, "an": an, "var": var, "mode": mode,
+                                "flow": flow, "computes": points}
+                        check_sib(res, case)
+            if n >= 1:
+                res.sample(case, 3)
+
+
 def replay(case):
     res = Result()
     law = case.get("law")
@@ -883,6 +1177,8 @@ def replay(case):
         check_iterate(res, case["input"], case["config"])
     elif law == "iterate-flow":
         check_iterate_flow(res, case["input"], case["config"])
+    elif law == "edges-str":
+        check_edges_str(res, case["input"], case["opt"])
     elif law == "map":
         check_map(res, case["input"], case["seq"], case["drop"])
     return result_violations(res)
@@ -897,14 +1193,19 @@ LEVEL_TEXT = ("bounded exhaustive exploration: every flow up to the stated lengt
               "compared cell by cell with independently filled private copies; the same for every "
               "history of the analysis object itself (holding a value when handed over, filled by its "
               "owner at every subset of the points between construction, the fills and compute), with "
-              "the object compared against a twin that never met a SplitIntoBins; IterateBins and "
+              "the object compared against a twin that never met a SplitIntoBins; the same for every "
+              "history in which compute() is also called between the fills and twice in a row (every "
+              "compute judged against private copies computed at the same points); IterateBins and "
               "MapBins are executed on the yielded and on hand-made histograms and compared with a "
-              "direct per-cell reference")
+              "direct per-cell reference, the string of a cell's edges under 16 option combinations of "
+              "cell_to_string with a reference written from its docstring")
 LEVEL_NOTE = ("holds for the enumerated alphabet only; flows longer than the bound, 3-dimensional edges, "
-              "values sharing one context object, Compose argument variables, repeated compute(), "
+              "values sharing one context object, Compose argument variables, a compute() abandoned "
+              "before its end, the list 'compose' of context.variable, "
               "analysis / edges / variable objects edited (other than the analysis being filled) after "
               "construction and "
               "MapBins over list-valued cells are not covered; MapBins' output context is not judged")
 TECHNIQUE = ("exhaustive enumeration of flows over an equivalence-class pool (and of the histories of the "
-             "analysis object around them) on the real code against a bisect-and-private-copy reference "
-             "model; differential twin for the analysis object")
+             "analysis object and of the compute() calls around them) on the real code against a "
+             "bisect-and-private-copy reference model; differential twin for the analysis object; "
+             "docstring reference for the strings of cell edges over the product of the options")
